@@ -139,7 +139,8 @@ def Own (A : Aff) (st : St) : Prop :=
 
 /-- An action of a handler that touches windows of `A` only: restack requests and extra references touch nothing
     the routing looks at before the next flush; close, unref, hide, show and steal-input act on a window of `A`.
-    (`take_focus` moves focus pointers along the whole parent chain: not covered.) -/
+    (`take_focus` moves focus pointers along the whole parent chain: covered separately, `ActConfF` in
+    Proof/WinInputDeliver.lean, when `A` is a union of top-level subtrees.) -/
 def ActConf (A : Aff) (a : Action) : Prop :=
   match a.act with
   | .raise | .raiseFront | .lower | .lowerBack | .keep => True
